@@ -9,6 +9,9 @@ Definition nres_sexp (r : res N) : sexp :=
   | Pan => Sym "panic" | Unsup => Sym "unsupported" | Stuck => Sym "stuck"
   end.
 
+Definition nmok (m : res N) (real : sexp) : bool :=
+  match m with Unsup => true | _ => sexp_eqb (nres_sexp m) real end.
+
 Definition eval04 (e : sexp) : verdict :=
   match e with
   | L [Sym k; tys; xs; L [Sym _; ret; L [Sym _; Num same]]] =>
@@ -18,7 +21,7 @@ Definition eval04 (e : sexp) : verdict :=
             let typed := has_type [] t x in
             let m := hash_model t x in
             {| v_known := typed;
-               v_model_ok := sexp_eqb (nres_sexp m) ret;
+               v_model_ok := nmok m ret;
                v_spec_ok := Z.eqb same 1;      (* the argument is unchanged *)
                v_guard := typed; v_model := nres_sexp m;
                v_tag := "hash/" ++ node_tag t |}
@@ -32,9 +35,9 @@ Definition eval04 (e : sexp) : verdict :=
             let typed := (has_type [] t x && has_type [] t y)%bool in
             let se := spec_eq [] t x y in
             {| v_known := typed;
-               v_model_ok := (sexp_eqb (nres_sexp (hash_model t x)) (L [Sym "ret"; hx])
-                              && sexp_eqb (nres_sexp (hash_model t y)) (L [Sym "ret"; hy])
-                              && match Equal.eqm [] Top t x y with Ok b => Bool.eqb b eq' | _ => false end)%bool;
+               v_model_ok := (nmok (hash_model t x) (L [Sym "ret"; hx])
+                              && nmok (hash_model t y) (L [Sym "ret"; hy])
+                              && match Equal.eqm [] Top t x y with Ok b => Bool.eqb b eq' | Unsup => true | _ => false end)%bool;
                (* values that derived Equal (and the structural reference) judge equal hash alike *)
                v_spec_ok := (negb (eq' || match se with Some b => b | None => false end) || Z.eqb hx' hy')%bool;
                v_guard := typed; v_model := nres_sexp (hash_model t x);
@@ -51,11 +54,14 @@ Definition eval04 (e : sexp) : verdict :=
             let real_ok := String.eqb cls "ok" in
             let real_err := String.eqb cls "generator-error" in
             let crash := (String.eqb cls "panic" || String.eqb cls "timeout")%bool in
-            let ok := (crash || if sup then real_ok else real_err)%bool in
+            (* a type the model refuses can still be accepted by goderive when an identical named
+               type of the package serves it by assignability (C08/C11's subject): not judged *)
+            let ok := (crash || if sup then real_ok else (real_err || real_ok))%bool in
             {| v_known := true; v_model_ok := ok; v_spec_ok := ok; v_guard := true;
                v_model := Sym (if sup then "ok" else "generator-error");
                v_tag := "support/" ++ (if crash then "generator-crash-see-C09"
-                                       else if sup then "supported" else "unsupported") |}
+                                       else if sup then "supported"
+                                       else if real_ok then "accepted-beyond-model" else "unsupported") |}
         | None => bad_line
         end
       else bad_line
